@@ -305,6 +305,17 @@ def run(ctx):
                     loc=ev.loc,
                 )
     chk.floor("R10.c", n_mut, 3, "mutations of Dispatcher.subscribers")
+    # unsubscribe removes with list.remove(), i.e. the first element that is
+    # *equal* to the argument: observers must keep identity equality
+    for c in repo.subclasses(obs.qualname):
+        eq = c.methods.get("__eq__")
+        if eq is not None and eq.cls is c:
+            chk.violation(
+                "R10.c", eq, None,
+                f"{c.name} defines __eq__: Dispatcher.unsubscribe removes the first subscriber *equal* to its argument "
+                "(list.remove), so with value equality another, still wanted observer can be the one that is dropped while "
+                "the one passed in keeps being notified",
+            )
     obs_init = obs.methods.get("__init__")
     if obs_init is None:
         raise AnalysisError("DispatcherObserver.__init__ vanished")
@@ -312,6 +323,20 @@ def run(ctx):
         for ev in ctx.effects.events(fi, fi.cls):
             if ev.kind == "call" and sub in (ev.data.get("targets") or []):
                 if fi is not obs_init:
+                    # forwarding an observer the *caller* handed in (a parameter of
+                    # a public function, or an element of a *args parameter) is the
+                    # caller's own subscribe() request - the public subscribe() is
+                    # open to them anyway; what must not happen is the package
+                    # subscribing an observer it obtained itself
+                    arg = ev.node.args[0] if getattr(ev.node, "args", None) else None
+                    if arg is not None and not fi.name.startswith("_"):
+                        origins = ctx.flow.origins(fi, arg, fi.cls)
+                        given = {p_ for p_ in fi.params[1:]} | ({fi.node.args.vararg.arg} if fi.node.args.vararg else set())
+                        from_caller = [o for o in origins if (o[0] == "param" and o[1] in given) or (o[0] == "elem" and o[1][0] == "param" and o[1][1] in given)]
+                        # ("elemfresh",): element of a local list the function fills itself
+                        if from_caller and all(o in from_caller or o == ("elemfresh",) for o in origins):
+                            chk.ok("R10.c", fi.qualname, ev.loc, "forwards a caller-supplied observer to subscribe()")
+                            continue
                     chk.violation("R10.c", fi, ev.node, "subscribe() is called from outside DispatcherObserver.__init__: the singleton guard is bypassed", loc=ev.loc)
     # guard precedes subscribe in DispatcherObserver.__init__
     for p in eng.paths(obs_init, obs):
@@ -484,7 +509,7 @@ def run(ctx):
             raise AnalysisError(f"{w.loc}: HistoryObserver.reset: how the history is emptied is not recognised ({w.text})")
 
     # ---------------------------------------------------------------- R10.e
-    _create_or_get(ctx, disp)
+    ctx.attempt(_create_or_get, ctx, disp)
 
     # ---------------------------------------------------------------- R10.f
     forbidden = {
@@ -523,6 +548,19 @@ def _resolve_expr(ev, expr):
         root, chain, fr = resolve_root(ev, expr.id, [])
         return (root, tuple(chain), fr.id if fr else None)
     return (ast.unparse(expr), (), ev.frame.id)
+
+
+def _memo_lookup(rv, me):
+    """``self.<tbl>.get(k)`` / ``self.<tbl>[k]`` with <tbl> other than the
+    subscriber list -> the table's attribute name."""
+    base = None
+    if isinstance(rv, ast.Call) and isinstance(rv.func, ast.Attribute) and rv.func.attr == "get":
+        base = rv.func.value
+    elif isinstance(rv, ast.Subscript):
+        base = rv.value
+    if isinstance(base, ast.Attribute) and isinstance(base.value, ast.Name) and base.value.id == me and base.attr != "subscribers":
+        return base.attr
+    return None
 
 
 def _create_or_get(ctx, disp):
@@ -564,7 +602,7 @@ def _create_or_get(ctx, disp):
             return
         chk.violation("R10.e", fi, None, "no loop over self.subscribers returning the first matching observer: an already subscribed observer is not reused")
         return
-    eng = ctx.engine(relevant=lambda e: False, max_depth=0, unroll=1)
+    eng = ctx.engine(relevant=lambda e: e.kind == "write" and e.data.get("local"), max_depth=0, unroll=1)
     n_ret = 0
     built_ok = False
     for p in eng.paths(F, disp):
@@ -572,6 +610,32 @@ def _create_or_get(ctx, disp):
             continue
         rv = p.events[-1].data.get("value")
         rv = ctx.norm.xexpr(F, rv) if rv is not None else None
+        # a local assigned on this very path (result of an inlined search step):
+        # the value it was last given on the path
+        for _ in range(3):
+            if not (isinstance(rv, ast.Name) and not any(rv.id == lp.target.id for lp in loops)):
+                break
+            last = next((e for e in reversed(p.events) if e.kind == "write" and e.data.get("local") and e.data.get("root") == rv.id
+                         and isinstance(e.node, ast.Assign) and len(e.node.targets) == 1 and isinstance(e.node.targets[0], ast.Name)), None)
+            if last is None:
+                break
+            # the path is infeasible if it later takes a branch that contradicts
+            # this very value (`x = SENTINEL` ... `if x is not SENTINEL:` taken)
+            vt, nm = ast.unparse(last.node.value), rv.id
+            later = p.events[p.events.index(last) + 1:]
+            contradicted = any(
+                e.kind == "branch" and (
+                    (ast.unparse(e.node) in (f"{nm} is not {vt}", f"{nm} != {vt}") and e.data.get("taken") is True)
+                    or (ast.unparse(e.node) in (f"{nm} is {vt}", f"{nm} == {vt}") and e.data.get("taken") is False)
+                )
+                for e in later
+            )
+            if contradicted:
+                rv = None
+                break
+            rv = last.node.value
+        if rv is None:
+            continue
         lv = next((lp.target.id for lp in loops if isinstance(rv, ast.Name) and rv.id == lp.target.id), None)
         if lv is not None:
             n_ret += 1
@@ -595,6 +659,38 @@ def _create_or_get(ctx, disp):
                 chk.violation("R10.e", fi, rv, "the new observer is not constructed as observer(self, **kwargs)", loc=fi.loc())
                 return
             built_ok = True
+        elif _memo_lookup(rv, ps[0]) is not None:
+            # an observer handed out of a look-up table kept beside the
+            # subscriber list: only sound if unsubscribing empties the table or
+            # removes the entries *by value* (the keys it was filled under are
+            # the requested types, not the observer's own type)
+            tbl = _memo_lookup(rv, ps[0])
+            unsub = ctx.repo.need_method(disp, "unsubscribe")
+            U = ctx.norm.flat(unsub)
+            obs_p = unsub.params[1] if len(unsub.params) > 1 else None
+            cleared = False
+            for n in own_nodes(U.node):
+                t = ast.unparse(n) if isinstance(n, (ast.Call, ast.Assign)) else ""
+                if isinstance(n, ast.Call) and t == f"self.{tbl}.clear()":
+                    cleared = True
+                if isinstance(n, ast.Assign) and ast.unparse(n.targets[0]) == f"self.{tbl}" and isinstance(n.value, (ast.Dict, ast.DictComp, ast.Call)):
+                    if isinstance(n.value, ast.DictComp):
+                        cleared = cleared or any(isinstance(c, ast.Compare) and isinstance(c.ops[0], (ast.IsNot, ast.NotEq)) and obs_p in ast.unparse(c) for g in n.value.generators for c in g.ifs)
+                    else:
+                        cleared = True
+                if isinstance(n, ast.For) and ast.unparse(n.iter).replace(" ", "").startswith((f"list(self.{tbl}.items())", f"tuple(self.{tbl}.items())")):
+                    cleared = cleared or any(isinstance(c, ast.Compare) and isinstance(c.ops[0], (ast.Is, ast.Eq)) and obs_p in ast.unparse(c) for c in ast.walk(n))
+            if cleared:
+                n_ret += 1
+            else:
+                chk.violation(
+                    "R10.e", fi, p.events[-1].node,
+                    f"an observer is returned from the look-up table `self.{tbl}` rather than from the subscriber list, and "
+                    f"unsubscribe neither empties that table nor removes its entries by value: after an observer is "
+                    "unsubscribed a later look-up can still hand it out (it no longer receives anything)",
+                    loc=p.events[-1].loc,
+                )
+                return
         else:
             raise AnalysisError(f"{fi.qualname}: return value `{ast.unparse(rv) if rv is not None else None}` not recognised")
     if n_ret == 0:
